@@ -747,8 +747,8 @@ def c11_fallback(text, config, has_tr, has_sec):
     forced = config == 'copy_all'
     forced_other = config in ('TRS_desc', 'desc_STR', 'S_desc_TR', 'TR_desc_S')
     if forced or ((not has_tr or not has_sec) and not forced_other):
-        if len(d.tracts) != 1 or not whole(d.tracts[0].desc, pp):
-            return True, f'expected one tract with the whole text, got {[(t.trs, t.desc) for t in d.tracts]}'
+        if len(d.tracts) != 1 or d.tracts[0].desc != pp:
+            return True, f'expected one tract with the whole preprocessed text {pp!r}, got {[(t.trs, t.desc) for t in d.tracts]}'
         if not forced and not d.e_flags:
             return True, 'fallback without an error flag'
     return False, f'{[(t.trs, t.desc) for t in d.tracts]} e_flags={d.e_flags}'
